@@ -69,7 +69,11 @@ func TestVerif_C12_SignallingFuzz(t *testing.T) {
 		var toks []string
 		mkTok := func(name string, g string, user *string, exp time.Duration) {
 			e := time.Now().Add(exp)
-			if _, err := token.Update(&token.Stateful{Token: tag + name, Group: g, Username: user, Permissions: []string{"present", "message"}, Expires: &e}, ""); err != nil {
+			ep := &e
+			if exp == 0 {
+				ep = nil // the administrative API accepts a token without an expiry time
+			}
+			if _, err := token.Update(&token.Stateful{Token: tag + name, Group: g, Username: user, Permissions: []string{"present", "message"}, Expires: ep}, ""); err != nil {
 				t.Fatalf("VERIF-HARNESS-ERROR: %v", err)
 			}
 			toks = append(toks, tag+name)
@@ -79,6 +83,8 @@ func TestVerif_C12_SignallingFuzz(t *testing.T) {
 		mkTok("noname", gOpen, nil, time.Hour)
 		mkTok("expired", gOpen, sp("john"), -time.Hour)
 		mkTok("other", gFull, nil, time.Hour)
+		mkTok("noexpiry", gOpen, sp("mary"), 0)
+		mkTok("noexpiry2", gOpen, nil, 0)
 		defer func() {
 			for _, tk := range toks {
 				if _, etag, err := token.Get(tk); err == nil {
